@@ -121,6 +121,8 @@ type Sched struct {
 	watchdog   *time.Timer
 	Hung       bool
 	siteOff    map[string]bool
+	lastPick   *Task
+	samePick   int
 	Switches   int
 }
 
@@ -521,8 +523,19 @@ func (s *Sched) choose(opts []option) int {
 				best = i
 			}
 		}
-		if s.pctChange[s.step] && opts[best].task != nil {
-			opts[best].task.prio = -s.step // lowest so far
+		if t := opts[best].task; t != nil {
+			// fairness bound: a task that spins (a retry loop waiting for a
+			// starved peer task) would otherwise run forever under fixed
+			// priorities; real schedulers are fair
+			if t == s.lastPick {
+				s.samePick++
+			} else {
+				s.lastPick, s.samePick = t, 0
+			}
+			if s.pctChange[s.step] || s.samePick > 400 {
+				t.prio = -s.step // lowest so far
+				s.samePick = 0
+			}
 		}
 		return best
 	case "starve":
